@@ -513,6 +513,64 @@ def _attributes(repo, rep):
     rep.check("if msgid is not missing: value = nodes.Translate(msgid, value)"
               in text, "R10.6", site, "translation wraps the attribute value",
               construct="attr-wrap", where=wh)
+    # exactly once: an interpolated attribute is translated either inline
+    # (implicit, no entry in i18n:attributes) or by the Translate wrapper
+    # (entry present) -- the two conditions exclude each other
+    res = L.emission(repo, f.qualname)
+    flags = []
+    for w in A.walk(res.value):
+        if isinstance(w, A.NodeV) and w.kind == "Interpolation" and \
+                len(w.args) >= 3:
+            flags.append(w.args[2])
+    ok = bool(flags)
+    for fl in flags:
+        t = A.show(fl).strip("`")
+        try:
+            tree = ast.parse(t, mode="eval").body
+        except SyntaxError:
+            tree = None
+        conj = set()
+        if isinstance(tree, ast.BoolOp) and isinstance(tree.op, ast.And):
+            conj = {src(v) for v in tree.values}
+        elif tree is not None:
+            conj = {src(tree)}
+        if not ({"implicit_i18n", "msgid is missing"} <= conj):
+            ok = False
+    rep.check(ok, "R10.6", site, "an interpolated attribute is translated "
+              "inline only if it is implicit *and* has no i18n:attributes "
+              "entry (otherwise the Translate wrapper does it): one "
+              "translate call per attribute", construct="attr-once",
+              where=wh, detail=str([A.show(fl) for fl in flags]))
+    st = repo.func("chameleon.i18n.simple_translate")
+    inner = [n for n in ast.walk(st.node) if isinstance(n, ast.FunctionDef)
+             and n is not st.node]
+    ok = False
+    detail = ""
+    if inner:
+        rets = [n for n in ast.walk(inner[0]) if isinstance(n, ast.Return)]
+        if len(rets) == 1:
+            v = rets[0].value
+            detail = src(v)
+            # str(mapping.get(<name>, <whole match>)) -- the default applies
+            # only to names that are absent, not to falsy values
+            if isinstance(v, ast.Call) and src(v.func) == "str" and \
+                    len(v.args) == 1 and isinstance(v.args[0], ast.Call) and \
+                    src(v.args[0].func) == "mapping.get" and \
+                    len(v.args[0].args) == 2 and \
+                    src(v.args[0].args[1]) == "whole":
+                ok = True
+    rep.check(ok, "R10.6", st.qualname, "the default translation replaces "
+              "${name} by str(mapping[name]) whenever the name is in the "
+              "mapping (also for empty or zero values); only absent names "
+              "keep the placeholder", construct="mapping-get",
+              where=L.where(st), detail=detail)
+    t2 = " ".join(src(x) for x in ast.walk(st.node)
+                  if isinstance(x, ast.stmt))
+    rep.check("if default is None: default = getattr(msgid, 'default', "
+              "msgid)" in t2 and "if mapping is None: mapping = "
+              "getattr(msgid, 'mapping', None)" in t2, "R10.6", st.qualname,
+              "message objects contribute their own default and mapping",
+              construct="message-attrs", where=L.where(st))
     g = repo.func(COMP + "ExpressionTransform.visit_Translate")
     r = L.emission(repo, g.qualname)
     items = A.items_of(r.value)
